@@ -33,12 +33,24 @@ Fixpoint insert_idx (i : nat) (l : list nat) : list nat :=
 (* indices 0..n-1 in directory (file-name) order *)
 Definition dir_order (n : nat) : list nat := fold_right insert_idx [] (seq 0 n).
 
+(* the FIXED extractWALFileInfo (fixes/C10-wal-replay-order): the names of a block are then sorted by
+   their numeric index (sort.SliceStable on ParseUint of the suffix).  A file is represented by its
+   index, so ParseUint (FormatUint i) = i is built into the representation; the harness observes the
+   real function on real names. *)
+Fixpoint insert_num (i : nat) (l : list nat) : list nat :=
+  match l with
+  | [] => [i]
+  | j :: r => if Nat.ltb i j then i :: l else j :: insert_num i r
+  end.
+Definition sort_num (l : list nat) : list nat := fold_right insert_num [] l.
+Definition replay_order (n : nat) : list nat := sort_num (dir_order n).
+
 Definition nat_list_eqb := list_eqb Nat.eqb.
 
 (* cases: (number of files, observed replay order of the indices) *)
 Fixpoint bad_order (cs : list (nat * list nat)) (i : nat) : list nat :=
   match cs with
   | [] => []
-  | (n, obs) :: r => (if nat_list_eqb (dir_order n) obs then [] else [i]) ++ bad_order r (S i)
+  | (n, obs) :: r => (if nat_list_eqb (replay_order n) obs then [] else [i]) ++ bad_order r (S i)
   end.
 Definition check_wal_order cs := bad_order cs 0.
